@@ -650,16 +650,23 @@ def _observer(case):
             p = sp.ArgumentParser()
             p.add_arguments(cls, "cfg")
             w = [w for w in p._wrappers if w.dest == "cfg"][0]
-            got = {}
+            got, kind = {}, {}
             for fw in w.fields:
                 got[fw.field.name] = fw.type
+                kind[fw.field.name] = "field"
             for ch in w._children:
                 t = ch._field.type
                 got[ch._field.name] = t.type if isinstance(t, dataclasses.InitVar) else t
-            return [[f.name, canon_type(got[f.name])] for f in _get_dataclass_fields(cls) if f.name in got]
+                kind[ch._field.name] = "optchild" if ch.optional else "child"
+            names = [f.name for f in _get_dataclass_fields(cls) if f.name in got]
+            return [[n, canon_type(got[n])] for n in names], [[n, kind[n]] for n in names]
 
         reset_simple_parsing_state()
         r = outcome_of(setup)
+        kinds_ = []
+        if r[0] == "ok":
+            kinds_ = r[1][1]
+            r = ["ok", r[1][0]]
         types_ = r[:2] if r[0] != "raise" else [r[0], r[1], _word(r[2])]
         outs = []
         for argv in case["argvs"]:
@@ -674,7 +681,7 @@ def _observer(case):
 
             o = outcome_of(go)
             outs.append(o[:3] if o[0] == "raise" else o[:2])
-        return types_, outs
+        return types_, kinds_, outs
 
     return observe
 
@@ -732,11 +739,11 @@ def _run_tree(case, mods):
 
         r = outcome_of(go)
         if r[0] == "ok":
-            types_, outs = r[1]
+            types_, kinds_, outs = r[1]
         else:  # the module itself could not be imported
-            types_, outs = ["raise", "import:" + str(r[1])], [["raise", "import:" + str(r[1])] for _ in case["argvs"]]
+            types_, kinds_, outs = ["raise", "import:" + str(r[1])], [], [["raise", "import:" + str(r[1])] for _ in case["argvs"]]
         sys.modules.pop(holder.get("name", ""), None)
-        out.append(dict(style=style, layout=layout, scope=scope, types=types_, outs=[_short(o) for o in outs],
+        out.append(dict(style=style, layout=layout, scope=scope, types=types_, kinds=kinds_, outs=[_short(o) for o in outs],
                         digest=[_digest(o[:2]) for o in outs]))
     return dict(rends=out)
 
@@ -843,6 +850,34 @@ def _spec_flat(chain):
     return [[f for f in allf if f["name"] == n][-1] for n in names]
 
 
+DCS = ["In"]
+
+
+def _spec_kind(ty, dnone):
+    """Python mirror of AnnotSpec.spec_wkind (None = unsupported)"""
+    def is_dc(c):
+        return c[0] == "atom" and c[1] in DCS
+
+    def seq(c):
+        return (c[0] in ("list", "tuplevar") and is_dc(c[1])) or (c[0] == "tuple" and bool(c[1]) and is_dc(c[1][0]))
+
+    def contains(c):
+        return is_dc(c) or seq(c) or (c[0] == "union" and any(contains(x) for x in c[1]))
+
+    if seq(ty):
+        return None
+    if ty[0] == "union" and all(is_dc(x) for x in ty[1]):
+        return "field"
+    if is_dc(ty) and not dnone:
+        return "child"
+    return "optchild" if contains(ty) else "field"
+
+
+def _want_kinds(decls):
+    return [[f["name"], _spec_kind(f["ty"], f["default"] == "None")] for f in decls
+            if f["kind"] != "classvar" and f["init"] and f["cmd"]]
+
+
 def _rw_problem(case, obs):
     t = parse_ann(case["s"])
     c = in_604_grammar(t) if t is not None else None
@@ -871,12 +906,16 @@ def py_spec(case, obs):
     if k == "rw":
         return _rw_problem(case, obs)
     want = _visible(_spec_flat(case["chain"]))
+    wantk = _want_kinds(_spec_flat(case["chain"]))
     ref = obs["rends"][0]
     for r in obs["rends"]:
         tag = f"{r['style']}/{r['layout']}/{r['scope']}"
         if r["types"] != ["ok", want]:
             return (f"rendering {tag}: field list / resolved types {r['types']} differ from the fields the class denotes "
                     f"{want}")
+        if r["kinds"] != wantk:
+            return (f"rendering {tag}: members are wrapped as {r['kinds']}, the class denotes {wantk} "
+                    "(option / nested group / optional nested group)")
     for r in obs["rends"][1:]:
         tag = f"{r['style']}/{r['layout']}/{r['scope']}"
         for argv, a, b, da, db in zip(case["argvs"], ref["outs"], r["outs"], ref["digest"], r["digest"]):
@@ -918,7 +957,11 @@ def _deviating(case, obs):
     def eff(r):
         return (case["future_spelling"] if r["style"] == "future" else r["style"], r["style"] == "future")
 
+    wantk = _want_kinds(_spec_flat(case["chain"]))
     for r in obs["rends"]:
+        if r["types"] == want and r.get("kinds") != wantk:
+            dev.add(eff(r))
+            what = what or "setup:kinds"
         if r["types"] != want:
             dev.add(eff(r))
             what = what or ("setup:" + (f"{r['types'][1]}({r['types'][2] if len(r['types']) > 2 else ''})"
@@ -1019,7 +1062,7 @@ def c_rty(r):
 
 def c_decl(f):
     kind = {"field": "KField", "initvar": "KInitVar", "classvar": "KClassVar"}[f["kind"]]
-    return cpair(cstr(f["name"]), f"(mkf {c_cty(f['ty'])} {kind} {cbool(f['init'])} {cbool(f['cmd'])})")
+    return cpair(cstr(f["name"]), f"(mkf {c_cty(f['ty'])} {kind} {cbool(f['init'])} {cbool(f['cmd'])} {cbool(f['default'] == 'None')})")
 
 
 def _res(o, f):
@@ -1043,10 +1086,12 @@ def to_coq(case, obs):
         fut = r["style"] == "future"
         sp = sp_of[case["future_spelling"] if fut else r["style"]]
         types_ = _res(r["types"], lambda l: clist([cpair(cstr(n), c_cty(t)) for n, t in l]))
+        wk = {"field": "WField", "child": "WChild", "optchild": "WOptChild"}
+        kinds_ = clist([cpair(cstr(n), wk[k]) for n, k in r["kinds"]])
         rends.append(f"(mkrend {sp} {cbool(fut)} {cbool(r['layout'] == 'chain')} {cbool(r['scope'] == 'func')} {types_} "
-                     f"{clist([cstr(d) for d in r['digest']])})")
+                     f"{kinds_} {clist([cstr(d) for d in r['digest']])})")
     chain = clist([clist([c_decl(f) for f in seg]) for seg in case["chain"]])
-    return f"CaseTree {clist([c_decl(f) for f in case['flat']])} {chain} {clist(rends)}"
+    return f"CaseTree {clist([cstr(d) for d in DCS])} {clist([c_decl(f) for f in case['flat']])} {chain} {clist(rends)}"
 
 
 # ---- shrinking ----
